@@ -315,6 +315,23 @@ def one_bond(eng, res, A: Attach, rule="R-ONE-BOND"):
     rets = [n for n in own_nodes(fi.node) if isinstance(n, ast.Return)]
     ok = bool(rets) and all(isinstance(r.value, ast.Name) and r.value.id == "self" for r in rets)
     res.ob(rule, fi, "returns-receiver", "attach_other returns its receiver (callers continue with the grown molecule)", fi.node, ok)
+    # ... and the receiver then *holds* the bonded combination: after AddBond, on every path to the return, self._mol is assigned
+    # the molecule obtained from the very object AddBond was called on (found by the mutation survey: without the store the
+    # result of every attachment is thrown away and no test notices)
+    if len(A.addbonds) == 1 and isinstance(A.addbonds[0].func, ast.Attribute):
+        flow = eng.flow(fi)
+        ab = A.addbonds[0]
+        ab_n = cfg.node_of(ab)
+        editable = src(flow.expand_names(ab.func.value, ab_n))
+        stores = []
+        for n in own_nodes(fi.node):
+            if isinstance(n, ast.Assign) and any(src(t) == "self._mol" for t in n.targets) and cfg.has(n):
+                v = n.value
+                if isinstance(v, ast.Call) and callee_name(v) == "GetMol" and isinstance(v.func, ast.Attribute) and src(flow.expand_names(v.func.value, cfg.node_of(n))) == editable:
+                    stores.append(cfg.node_of(n))
+        ok = bool(stores) and cfg.must_follow_any(ab_n, set(stores))
+        res.ob(rule, fi, "stores-bonded-molecule", "after the bond is made the receiver stores the molecule of the object the bond was added to (on every path to the return)",
+               ab, ok, f"{len(stores)} store(s) of `self._mol = <that object>.GetMol()` after AddBond" + ("" if not stores else "; a return is reachable without it"))
 
 
 # ---------------------------------------------------------------------- call sites of attach_other
@@ -542,6 +559,8 @@ def check(eng, res):
     pair = operand_agree(eng, res, A, cc)
     shift(eng, res, A, pair)
     consume(eng, res, A, pair)
+    res.doc("R-ONE-BOND", "exactly one AddBond / edge / combination per attachment, and the bonded combination is what the receiver stores (shared with C05)")
+    one_bond(eng, res, A)
     ns = index_space(eng, res)
     res.floor("R-INDEX-SPACE", ns, 3)
     # "compatible" in R-COMPAT-DOM means the conjugation rule: decided exhaustively by C03's table
